@@ -54,6 +54,13 @@ type ToOneRelationshipResolver[T any] struct {
 	Resolve func(ctx context.Context, resource T) (*types.ResourceId, *types.Error)
 }
 
+func (r ToOneRelationshipResolver[T]) validate() error {
+	if r.Resolve == nil {
+		return fmt.Errorf("to-one relationship resolvers must have a resolve function")
+	}
+	return nil
+}
+
 func (r ToOneRelationshipResolver[T]) ResolveRelationship(ctx context.Context, resource T, dataRequested bool, params url.Values) (types.Relationship, *types.Error) {
 	if dataRequested || r.ResolveByDefault {
 		if id, err := r.Resolve(ctx, resource); err != nil {
@@ -87,6 +94,13 @@ type ToManyRelationshipResolver[T any] struct {
 	AddMembers func(ctx context.Context, resource T, members []types.ResourceId) ([]types.ResourceId, *types.Error)
 
 	RemoveMembers func(ctx context.Context, resource T, members []types.ResourceId) ([]types.ResourceId, *types.Error)
+}
+
+func (r ToManyRelationshipResolver[T]) validate() error {
+	if r.Resolve == nil {
+		return fmt.Errorf("to-many relationship resolvers must have a resolve function")
+	}
+	return nil
 }
 
 func (r ToManyRelationshipResolver[T]) ResolveRelationship(ctx context.Context, resource T, dataRequested bool, params url.Values) (types.Relationship, *types.Error) {
